@@ -48,3 +48,13 @@ Example ex_run :
      [XBytes NotFound; XFile NotFound]] /\
   get_bytes toyH (sfiles (snd st)) id1 = Found d2 (toyH d2) 6 9.
 Proof. vm_compute. auto. Qed.
+
+(* the additional hypotheses of C11_lookup_is_some_put, for the universe holding the empty content *)
+Example ex_lookup_hyps : lookup_hyps toyH (fun d => d = []).
+Proof.
+  split; [|split; [|reflexivity]].
+  - intros S s d0 -> Hs Hk. destruct s as [|a s].
+    + vm_compute in Hs. discriminate.
+    + destruct (Hk 0%nat a eq_refl) as (d & -> & Sd & _). exact Sd.
+  - intros d c -> [t Ht] _. destruct c; [reflexivity|discriminate].
+Qed.
